@@ -10,6 +10,9 @@
 # capacity check tested, on the same bucket, with no increment in between"
 # becomes term equality + edge dominance.  Rules R1..R5 are phrased over these
 # terms, CFG guards (edge dominators), must-pass-through and folded constants.
+# A local that holds a helper's `cond ? NULL : &slot` result is refined on the two
+# edges of a NULL test (branch refinement); the test's guard atoms include the
+# helper's own condition, so a capacity check inside a helper guards the caller's stores.
 # R6 follows the priority from the scheduling parameter through the item field
 # to the operands of the sort comparison on the resolved clang types and
 # evaluates the composed integer conversions over the finite int16 domain.
@@ -31,7 +34,11 @@ EXPLANATION = (
     "versioned memory loads. On these terms the rules decide for all ring positions, offsets and "
     "fill levels: every item-slot store is indexed by the bucket's own num_items, edge-dominated by "
     "num_items < ARRAY_SIZE(item) on the same bucket with no write in between, overflow returns a "
-    "negative value without storing, num_items is incremented exactly once per stored slot (R1); "
+    "negative value without storing, num_items is incremented exactly once per stored slot and every path that "
+    "increments it stores the slot -- decided on the path structure, whichever of store and increment comes first; a "
+    "slot handed out by a helper (`full ? NULL : &item[num_items]`, the helper's returns joined to one ?: term) is "
+    "resolved by the caller's NULL test: on the non-NULL edge the pointer is the slot address and the helper's "
+    "capacity test holds there, on the very count the address was formed with (R1); "
     "every bucket[] index is cur_bucket, (cur_bucket + x) mod ARRAY_SIZE(bucket) or a bounded loop "
     "counter, cur_bucket is written once, only by tdma_sched_advance, with (cur_bucket + 1) mod ring "
     "(R2, who-may-write over the layer1 TUs); a ring index that is not in that normal form (division-free wrap: "
@@ -69,6 +76,8 @@ ASSUMPTIONS = [
     "int/long 32, long long 64 bits); an out-of-range conversion to a signed type wraps modulo 2^N (gcc/clang)",
     "the bucket the running tdma_sched_execute iterates over may be left to it by tdma_sched_reset (it is emptied "
     "by R4's store); every other bucket must be emptied by the reset itself",
+    "the address of a member or array element of an object (&bucket->item[n]) is never NULL; an access through a "
+    "pointer that may be NULL is judged, where it does not trap, as an access to its non-NULL alternative",
 ]
 
 FW = "src/target/firmware"
@@ -281,6 +290,98 @@ def eval_term(t, leaf):
     raise Unknown()
 
 
+# ------------------------------------------------------- pointers that may be NULL
+# A helper such as `slot = bucket_free_item(bucket)` is summarised to the decision term
+# `full ? NULL : &bucket->item[bucket->num_items]`.  The caller's `if (!slot) return -1;` then decides which alternative
+# the pointer is: on the edge where it is not NULL it IS the address (and `full` is false there -- the capacity guard the
+# helper tested holds on that edge, on the very count the address was formed with); on the other edge it is NULL (and
+# `full` holds when the other alternative is an address, which is never NULL).
+
+def term_atoms(t, pol):
+    """Guard atoms (same vocabulary as Fn.batoms) that hold when the condition TERM t is true (pol) / false."""
+    if not isinstance(t, tuple):
+        return set()
+    k = t[0]
+    if k == "not":
+        return term_atoms(t[1], not pol)
+    if k in ("and", "or"):
+        if (k == "and") == pol:
+            return term_atoms(t[1], pol) | term_atoms(t[2], pol)
+        return set()
+    if k == "cmp" and t[1] == "<":
+        return {("<", t[2], t[3], pol)}
+    if k == "cmp" and t[1] == "==":
+        lo, hi = sorted([t[2], t[3]], key=repr)
+        return {("==", lo, hi, pol)}
+    if k == "c":
+        return set()
+    lo, hi = sorted([C0, t], key=repr)
+    return {("==", lo, hi, not pol)}
+
+
+def is_address(t):
+    """&object.member / &array[i]: never NULL (see ASSUMPTIONS)."""
+    return isinstance(t, tuple) and t[0] == "addr"
+
+
+def ptr_alternatives(t):
+    """The non-NULL alternatives of a pointer term `c1 ? NULL : (c2 ? NULL : p)`."""
+    if isinstance(t, tuple) and t[0] == "ite":
+        return ptr_alternatives(t[2]) | ptr_alternatives(t[3])
+    return set() if t == C0 else {t}
+
+
+def ptr_resolve(t, null):
+    """The value of pointer term t on an edge where it was found (not) NULL."""
+    if null:
+        return C0
+    while isinstance(t, tuple) and t[0] == "ite":
+        if t[2] == C0:
+            t = t[3]
+        elif t[3] == C0:
+            t = t[2]
+        else:
+            break
+    return t
+
+
+def null_atoms(t, null):
+    """Atoms implied by `t == NULL` (null) / `t != NULL` for a ?: pointer term t."""
+    out = set()
+    while isinstance(t, tuple) and t[0] == "ite":
+        c, x, y = t[1], t[2], t[3]
+        if not null:
+            if x == C0:
+                out |= term_atoms(c, False)
+                t = y
+            elif y == C0:
+                out |= term_atoms(c, True)
+                t = x
+            else:
+                break
+        else:
+            if x == C0 and is_address(y):
+                out |= term_atoms(c, True)
+            elif y == C0 and is_address(x):
+                out |= term_atoms(c, False)
+            break
+    return out
+
+
+def null_tests(atoms):
+    """(pointer term, found NULL?) for the atoms `0 == t` / `0 != t` over ?: pointer terms."""
+    for at in atoms:
+        if at[0] == "==" and C0 in (at[1], at[2]):
+            t = at[2] if at[1] == C0 else at[1]
+            if isinstance(t, tuple) and t[0] == "ite" and (C0 in (t[2], t[3])):
+                yield t, at[3]
+
+
+def mentions_scheduler(t):
+    return any(isinstance(x, tuple) and (x == SCHED or (x[0] == "fld" and x[2] in ("bucket", "item", "num_items", "cur_bucket")))
+               for x in subterms(t))
+
+
 # ------------------------------------------------------- per-function engine
 
 class Ctx:
@@ -321,6 +422,7 @@ class Fn:
         self.rec = False
         self._atoms = {}
         self._gatoms = {}
+        self.refine = {}                  # (cond node id, label) -> {local key: value on that edge}
         self.solve()
         self.record()
 
@@ -424,6 +526,12 @@ class Fn:
         if gk is not None:
             st = dict(st)
             st[gk] = X.add(self.get(st, gk), C1)
+        ref = self.refine.get((p.id, label))
+        if ref:
+            st = dict(st)
+            for k, (old, new) in ref.items():
+                if st.get(k) == old:
+                    st[k] = new
         return st
 
     def merge(self, n, ins):
@@ -482,9 +590,25 @@ class Fn:
             self.exec_stmt(n.ast)
         elif n.kind in ("cond", "switch"):
             if getattr(n, "cond", None):
-                self.rval(n.cond)
+                t = self.rval(n.cond)
+                if n.kind == "cond":
+                    self.branch_refine(n, t)
         self.rec = False
         return self.st
+
+    def branch_refine(self, n, t):
+        """A NULL test of a local that holds a helper's `full ? NULL : &slot` result decides the local on both edges."""
+        for label in (True, False):
+            ref = {}
+            for (pt, null) in null_tests(term_atoms(t, label)):
+                new = ptr_resolve(pt, null)
+                for k, v in self.st.items():
+                    if k[0] == "L" and v == pt:
+                        ref[k] = (pt, new)
+            if ref:
+                self.refine[(n.id, label)] = ref
+            else:
+                self.refine.pop((n.id, label), None)
 
     def exec_stmt(self, a):
         k = kind(a)
@@ -554,12 +678,12 @@ class Fn:
             if want is not None and rec != want:
                 name = "%s::%s" % (rec, name)
             if n.get("isArrow"):
-                b = self.rval(ks[0])
+                b = self.target(self.rval(ks[0]))
                 self.ring_site(b, C0, n, ks[0], None, bare=True)
                 return ("fld", deref(b), name)
             return ("fld", self.lval(ks[0]), name)
         if k == "ArraySubscriptExpr":
-            base = self.rval(ks[0])
+            base = self.target(self.rval(ks[0]))
             i = self.rval(ks[1])
             if self.rec and base[0] == "addr" and base[1][0] == "idx" and base[1][2] == C0 \
                     and base[1][1][0] == "fld" and base[1][1][2] == "bucket":
@@ -567,10 +691,24 @@ class Fn:
                                    "qt": strip(ks[1]).get("type", {}).get("qualType", "")})
             return deref(padd(base, i))
         if k == "UnaryOperator" and n.get("opcode") == "*":
-            b = self.rval(ks[0])
+            b = self.target(self.rval(ks[0]))
             self.ring_site(b, C0, n, ks[0], None, bare=True)
             return deref(b)
         self.unsupported(n, "lvalue")
+
+    def target(self, p):
+        """The pointer a dereference goes through.  A pointer that may be NULL (`full ? NULL : &slot`, not decided by
+        a NULL test on the way here) designates, wherever the access does not trap, its one non-NULL alternative --
+        the access is then judged like any other access to that object (an unguarded item store has no capacity
+        guard)."""
+        if isinstance(p, tuple) and p[0] == "ite":
+            alts = ptr_alternatives(p)
+            if len(alts) == 1:
+                return next(iter(alts))
+            if mentions_scheduler(p):
+                raise AnalysisError("%s(): access through a pointer that is one of several scheduler objects (%s) -- "
+                                    "unclassifiable" % (self.name, show(p)))
+        return p
 
     def load(self, lv, qt=None):
         if lv[0] == "L":
@@ -688,7 +826,7 @@ class Fn:
                     return ("fn", c["referencedDecl"].get("name"))
                 return addr(self.lval(ks[0]))
             if op == "*":
-                lv = deref(self.rval(ks[0]))
+                lv = deref(self.target(self.rval(ks[0])))
                 if lv[0] == "fn":
                     return lv
                 return self.load(lv, n.get("type", {}).get("qualType"))
@@ -779,6 +917,9 @@ class Fn:
             if name in IO_FUNCS:
                 pass
             elif name in ("memcpy", "memmove", "memset") and len(args) == 3:
+                args[0] = self.target(args[0])
+                if name != "memset":
+                    args[1] = self.target(args[1])
                 lv = deref(args[0])
                 pt = self.pointee(args_ast[0])
                 self.store(lv, None, n, pt, how="copy" if name != "memset" else "fill",
@@ -942,6 +1083,8 @@ class Fn:
                     out = self.batoms(c.cond, bool(label))
                 finally:
                     self.st, self.cur, self.rec, self.k = save
+                for (pt, null) in list(null_tests(out)):
+                    out = out | null_atoms(pt, null)
             self._atoms[key] = out
         return self._atoms[key]
 
@@ -1248,6 +1391,16 @@ def r1_capacity(a):
             old = X.sub(val, C1)
             key = (B, old)
             is_inc = old[0] == "ld" and old[1] == lv
+            if is_inc and key not in counted:
+                # the count that was incremented is the one that indexed a stored slot, re-read after a call the
+                # analysis cannot see into (no known write of num_items in between): whether it still is that count
+                # is not decidable here -- no verdict instead of "second increment"
+                for (B2, I2) in counted:
+                    v1, v2 = old[2], I2[2]
+                    if unver(B2) == unver(B) and unver(I2) == unver(old) and isinstance(v1, tuple) and \
+                            isinstance(v2, tuple) and v1[:3] == v2[:3] and v1 != v2:
+                        raise AnalysisError("%s(): num_items is incremented after a call into code the analysis cannot see "
+                                            "(it may have changed the count that indexed the stored slot) -- unclassifiable" % name)
             a.ob(R, name, "%s(): write %s.num_items = %s is the single increment belonging to a stored item (or a reset to 0)" % (
                 name, show(B), show(val)),
                 "num_items + 1 for a slot stored at item[num_items]",
@@ -1269,6 +1422,22 @@ def r1_capacity(a):
                     cnt = 1 if (g.exit.id not in after and n.id not in after) else "0 on some path"
                 a.ob(R, name, "%s(): num_items is incremented exactly once for %s" % (name, store_desc(s)),
                      1, cnt, cnt == 1, n)
+            # ... and the other way round: no path counts an item that is never stored.  The pairing is decided on the
+            # path structure, in either statement order (store, then count -- count, then store): a store of the slot
+            # dominates the increment, or every path from the increment on passes a store of the slot.
+            snodes = [s["node"] for s in sts]
+            for i in inodes:
+                if any(n is i or g.dominates(n, i) for n in snodes):
+                    backed = True
+                else:
+                    after = reach1(g, i, skip=snodes)
+                    backed = g.exit.id not in after and i.id not in after
+                a.ob(R, name, "%s(): every path that counts an item in %s.num_items stores that item (before or after "
+                     "the increment)" % (name, show(key[0])),
+                     "slot stored on every path through the increment",
+                     "slot stored on every path through the increment" if backed else
+                     "a path increments num_items and leaves without storing the item",
+                     backed, i)
     a.L.floor(R, "item store statements in tdma_sched.c", nstores, 3)
     a.L.floor(R, "item slot groups (tdma_schedule, tdma_schedule_set)", ngroups, 2)
 
